@@ -115,7 +115,7 @@ SPECS = {
              "28 fixed messages (quotes, backslashes, parentheses, keywords, multi-byte) in two item contexts, combined/multiple attributes, "
              "random messages over a Unicode alphabet with multi-byte characters at every offset; non-trivial = at least one validator item; distinct = hash of input",
         exhaustive={"quick": False, "thorough": False},
-        partial=["rendering stage proved for all validator values (C11_*_chain, escape_exact); scanner stage proved for the canonical `length(min, max, message)` text over all numerals and all messages without quote / backslash / closing parenthesis (C11_scan_length_canonical), other item shapes on instances; exclusion classes K11b-K11g are known findings"],
+        partial=["rendering stage proved for all validator values (C11_*_chain, escape_exact); scanner stage proved for the canonical `length(min, max, message)` and `range(min, max, message)` texts over all numerals and all messages without quote / backslash / closing parenthesis (C11_scan_length_canonical, C11_scan_range_canonical), both stages composed on that fragment (C11_length_end_to_end, C11_range_end_to_end), other item shapes on instances; exclusion classes K11b-K11g are known findings"],
     ),
     "C01": dict(groups=["project"], only_oracles=["c01_parses_types", "c01_parses_commands", "c01_parses_events", "c01_parses_index"],
         excluded_classes=["undocumentedItemShape", "emptyEnum", "duplicateCommandNames", "duplicateTypeNames", "K02e_nameClash", "K12c_listenerNameClash"],
